@@ -1,8 +1,10 @@
 """Histories of mutating calls on xgi.DiHypergraph (generation, execution, observation, Gallina)."""
 import copy, random, warnings
 from . import gallina as G
+from . import common as C
 from .hgsim import rattr, ATTR_KEYS, ATTR_VALS, dedup_named, peek_uid
 
+ITER_OK = True     # member collections may be presented as tuples / one-shot iterators (common.members)
 STYLES = ["int", "int", "str", "mixed"]
 
 
@@ -132,14 +134,14 @@ def gen_op(rng, H, nodes, eids, malformed):
 
 def bunch_arg(fmt, items):
     if fmt == 1:
-        return [(list(t), list(h)) for t, h in items]
+        return [(C.members(t), C.members(h)) for t, h in items]
     if fmt == 2:
-        return [((list(t), list(h)), i) for t, h, i in items]
+        return [((C.members(t), C.members(h)), i) for t, h, i in items]
     if fmt == 3:
-        return [((list(t), list(h)), dict(a)) for t, h, a in items]
+        return [((C.members(t), C.members(h)), dict(a)) for t, h, a in items]
     if fmt == 4:
-        return [((list(t), list(h)), i, dict(a)) for t, h, i, a in items]
-    return {i: (list(t), list(h)) for i, (t, h) in items}
+        return [((C.members(t), C.members(h)), i, dict(a)) for t, h, i, a in items]
+    return {i: (C.members(t), C.members(h)) for i, (t, h) in items}
 
 
 def apply_op(H, op):
@@ -152,9 +154,9 @@ def apply_op(H, op):
             if name == "add_edge":
                 _, t, h, idx, a = op
                 if idx is None:
-                    H.add_edge((list(t), list(h)), **a)
+                    H.add_edge((C.members(t), C.members(h)), **a)
                 else:
-                    H.add_edge((list(t), list(h)), idx=idx, **a)
+                    H.add_edge((C.members(t), C.members(h)), idx=idx, **a)
             elif name == "add_edges_from":
                 H.add_edges_from(bunch_arg(op[1], op[2]), **op[3])
             elif name == "add_node":
